@@ -15,6 +15,8 @@ Inductive c02case :=
 Definition c02_wf (txt : text) : bool :=
   match sm_denote txt with
   | Some d => c02_dom d && dialect_ok txt d
+              (* the file's tempo script lies in the domain of C10's closed form (hypothesis of C02_read_times_integrate) *)
+              && domainb Tables.snapper_table (map (fun tp : Q * Q * Q => mkBcs (snd (fst tp)) 4 (snap_of_beat (fst (fst tp)))) (d_tempo d)) []
   | None => false
   end.
 
